@@ -40,6 +40,12 @@ pub struct GenCfg {
     pub lookahead_effects: bool,
     /// items of different lists may share values (order among ties is then observable)
     pub list_ties: bool,
+    /// add knot `kprobe`: one line, then falls off the end (used to observe what is left on the call stack)
+    pub probe_knot: bool,
+    /// functions have no global side effects (no assignments, no RANDOM)
+    pub pure_functions: bool,
+    /// more and longer threads
+    pub thread_boost: bool,
 }
 
 impl GenCfg {
@@ -75,6 +81,9 @@ impl GenCfg {
             multiline_functions: true,
             lookahead_effects: true,
             list_ties: false,
+            probe_knot: false,
+            pure_functions: false,
+            thread_boost: false,
         }
     }
     /// everything, including the nondeterministic-looking features (for lockstep oracles)
@@ -261,7 +270,8 @@ impl<'a> Builder<'a> {
             }
         }
         if cfg.threads {
-            for i in 0..self.rng.below(3) {
+            let nthr = if cfg.thread_boost { 1 + self.rng.below(2) } else { self.rng.below(3) };
+            for i in 0..nthr {
                 self.plans.push(KnotPlan {
                     name: format!("thr{i}"),
                     kind: KnotKind::Thread,
@@ -314,6 +324,16 @@ impl<'a> Builder<'a> {
                 });
             }
         }
+        if cfg.probe_knot {
+            self.plans.push(KnotPlan {
+                name: "kprobe".into(),
+                kind: KnotKind::Flow,
+                params: vec![],
+                ret: Ty::Int,
+                stitches: vec![],
+                loops: false,
+            });
+        }
         // root
         self.scope.clear();
         p.root = vec![Stmt::Divert(Target::Named("k0".into()))];
@@ -330,6 +350,9 @@ impl<'a> Builder<'a> {
             self.in_function = plan.kind == KnotKind::Function;
             self.in_thread = plan.kind == KnotKind::Thread;
             let (body, stitches) = match plan.kind {
+                KnotKind::Flow if plan.name == "kprobe" => {
+                    (vec![Stmt::Line(vec![Inline::Text("probe line".into())], None)], vec![])
+                }
                 KnotKind::Flow if plan.name == "kz" => {
                     let t = self.text();
                     (vec![Stmt::Line(vec![Inline::Text(t)], None), Stmt::Divert(Target::End)], vec![])
@@ -617,6 +640,18 @@ impl<'a> Builder<'a> {
     fn content_run(&mut self, externals: &[External], n: usize) -> Vec<Stmt> {
         let mut v = Vec::new();
         for _ in 0..n {
+            if self.cfg.thread_boost
+                && self.cfg.threads
+                && !self.in_function
+                && !self.in_thread
+                && self.plans[self.cur_knot].kind == KnotKind::Flow
+                && !self.meta.thread_knots.is_empty()
+                && self.rng.chance(1, 5)
+            {
+                let t = self.rng.pick(&self.meta.thread_knots.clone()).clone();
+                v.push(Stmt::Thread(t));
+                continue;
+            }
             match self.rng.below(16) {
                 0..=4 => v.push(self.content_line()),
                 5 | 6 => {
@@ -708,7 +743,12 @@ impl<'a> Builder<'a> {
                 14 if self.cfg.lists && !self.meta.list_globals.is_empty() => {
                     let l = self.rng.pick(&self.meta.list_globals.clone()).clone();
                     let t = self.text();
-                    let f = *self.rng.pick(&["LIST_COUNT", "LIST_MIN", "LIST_MAX", "LIST_ALL", "LIST_INVERT", "LIST_VALUE"]);
+                    let mut fs = vec!["LIST_COUNT", "LIST_MIN", "LIST_MAX", "LIST_ALL", "LIST_INVERT", "LIST_VALUE"];
+                    if self.cfg.random {
+                        fs.push("LIST_RANDOM");
+                        fs.push("LIST_RANDOM");
+                    }
+                    let f = *self.rng.pick(&fs);
                     v.push(Stmt::Line(
                         vec![Inline::Text(t), Inline::Text(" ".into()), Inline::Expr(Expr::Call(f.into(), vec![Expr::Var(l)]))],
                         None,
@@ -966,7 +1006,7 @@ impl<'a> Builder<'a> {
 
     fn thread_body(&mut self, externals: &[External]) -> Vec<Stmt> {
         self.cur_scope = self.plans[self.cur_knot].name.clone();
-        let nrun = self.rng.below(2);
+        let nrun = if self.cfg.thread_boost { 1 + self.rng.below(3) } else { self.rng.below(2) };
         let mut v = self.content_run(externals, nrun);
         let nflow = self.meta.flow_knots.len();
         for _ in 0..1 + self.rng.below(2) {
@@ -1001,7 +1041,15 @@ impl<'a> Builder<'a> {
         let mut v = Vec::new();
         let n = if self.cfg.multiline_functions { self.rng.below(3) } else { self.rng.below(2) };
         for _ in 0..n {
-            if self.cfg.fn_text && self.rng.chance(1, 2) {
+            if self.cfg.pure_functions {
+                // no sequences (they count visits), no assignments
+                let mut pieces = vec![Inline::Text(self.text())];
+                if self.rng.chance(1, 2) {
+                    pieces.push(Inline::Text(" ".into()));
+                    pieces.push(Inline::Expr(self.int_atom()));
+                }
+                v.push(Stmt::Line(pieces, None));
+            } else if self.cfg.fn_text && self.rng.chance(1, 2) {
                 let simple = self.rng.chance(1, 2);
                 let pieces = self.inline_pieces(false, simple);
                 v.push(Stmt::Line(pieces, None));
